@@ -39,6 +39,11 @@ ASSUMES = ['every generated float enters the oracle and the model as its exact r
            'has no content there, theorem C17_normalize_domain); logtransform and autofix are not named by the property '
            '(their last statements rebind W, so copy=False does not leave the result in the argument: C17_rebind_not_inplace; '
            'observed once per run under distribution key rebind:*)']
+# input-representation layer of common.py: layouts only.  dtype is a family of this harness's own generator (int64 / bool) with
+# dtype clauses of its own (<fn>:dtype compares the result's dtype with the array the harness built; weight_conversion:dispatch
+# compares two calls dtype included), so the integer / bool kinds stay off; copy=False calls are never converted by the layer.
+VARIANT_KINDS = {'fortran', 'tview', 'strided'}
+
 TRUSTED = ['the store model (Model/ThresholdStore.v) reads `W = W.copy()` as allocate+rebind and every other statement of the six '
            'utilities as a write into the object bound to W; that classification was made by reading bct/utils/other.py and is '
            'checked dynamically (`is`, argument before/after, cells of the enclosing array outside a view)']
